@@ -109,6 +109,8 @@ package nut11
 //@   calls schnorr.Sign asserts @message [C12] bytes(hash) == sha256(bytesOf(proof.Secret)) && privKey == signingKey
 
 //@ func AddSignatureToOutputs
+// the outputs come back in place: same list, same length (the wallet counts them for its NUT-13 counter)
+//@   ensures @same [C19] r1 == nil ==> r0 == outputs
 //@   tags C12
 //@   safety C06 C12
 //@   calls schnorr.Sign asserts @message [C12] hexok(output.B_) && bytes(hash) == sha256(hexdec(output.B_)) && privKey == signingKey
